@@ -75,11 +75,17 @@ def coq_makefile():
             raise RuntimeError("coq_makefile failed: " + err)
 
 
-def coq_build(targets, timeout=1500):
+def coq_build(targets, timeout=1200):
     """full .vo build of the given targets; returns (ok, output)"""
     coq_makefile()
     vo = [t[:-2] + ".vo" if t.endswith(".v") else t for t in targets]
-    rc, out, err, dt = sh(["make", "-j16"] + vo, cwd=COQ, timeout=timeout)
+    try:
+        rc, out, err, dt = sh(["make", "-j16"] + vo, cwd=COQ, timeout=timeout)
+    except subprocess.TimeoutExpired as e:
+        # a proof that no longer terminates in time no longer checks
+        for proc in ("coqc",):
+            subprocess.run(["pkill", "-x", proc], capture_output=True)
+        return False, f"the Coq build of {' '.join(vo)} did not finish within {timeout} s", float(timeout)
     return rc == 0, out + err, dt
 
 
